@@ -119,6 +119,8 @@ def run(ctx):
     c01.check_filter_dicts(ctx)      # the angle the readers multiply by the distance
     from . import c13
     c13.check_cf_interpolate(ctx)    # 'linearly interpolated to the aperture radius, apertures beyond the largest use the largest'
+    from . import c03
+    c03.check_chi(ctx, c03.check_transform(ctx))      # 'the reported chi^2 is the minimum': chi_squared itself, per flag, for the 2-D and the 3-D array
 
 
 MO = 'sedfitter/models.py'
